@@ -18,7 +18,9 @@ open Lean HL.Index HL.Workspace HL.WsDocs
             rebuilt on what the client sees (buffers over disk) — judged by HL.Spec.Rebuild.viewOk,
             the judgement of C12, applied to the client's view instead of the disk.
   in_domain = the hypotheses of HL.Props.C09.workspace_follows_buffers (files of the view that
-            keep their include lists).
+            keep their include lists), widened for the oracle by *settled* include changes (see
+            `settled`: an include line cut and pasted back while the files it brings in have no
+            unsaved edits) — the judgement is the property's own rebuild rule either way.
 -/
 namespace HL.Driver.C09Docs
 open HL.Driver HL.Driver.C12 HL.Spec.Rebuild
@@ -36,6 +38,17 @@ def toEv (e : EvJ) : Ev :=
   | "change" => .change e.name e.c
   | "close" => .close e.name
   | _ => .save e.name
+
+/-- An event that changes the include list of `name` is still judged when the change is
+    *settled*: every other file reachable from `name` in the client's view after the event is
+    seen by the client exactly as it is on disk (no unsaved buffer), so that files entering the
+    tree are the same whether read from disk (as the workspace does) or from the client's view
+    (as the rebuild does).  Files leaving the tree need no condition. -/
+def settled (after : FS) (bufs : AList Contrib) (disk : FS) (name : String) : Bool :=
+  (reach after name).all fun f =>
+    f == name || match bufs.get f with
+      | none => true
+      | some b => disk.get f == some b
 
 def docs (j : Json) : Json := Id.run do
   let cfg := parseCfg j
@@ -63,14 +76,18 @@ def docs (j : Json) : Json := Id.run do
     | "close" =>
       match disk.get e.name, clientView.get e.name with
       | some c, some c0 =>
-        if e.name == "" || !contribOk c || resolveIncl e.name c.incs != resolveIncl e.name c0.incs then
+        if e.name == "" || !contribOk c then
           calm := false
+        else if resolveIncl e.name c.incs != resolveIncl e.name c0.incs then
+          if !settled (clientView.set e.name c) bufs disk e.name then calm := false
       | _, _ => calm := false
     | _ =>
       match clientView.get e.name with
       | some c0 =>
-        if e.name == "" || !contribOk e.c || resolveIncl e.name e.c.incs != resolveIncl e.name c0.incs then
+        if e.name == "" || !contribOk e.c then
           calm := false
+        else if resolveIncl e.name e.c.incs != resolveIncl e.name c0.incs then
+          if !settled (clientView.set e.name e.c) bufs disk e.name then calm := false
       | none => calm := false
     s := dstep {} cfg s (toEv e)
     let (v, w') := observe s.w
